@@ -1,14 +1,16 @@
 // Command c10: multi-file isolation harness for property C10.
-//  (A) attribution: directory trees with sibling repositories whose names share
-//      a prefix and repositories nested in others; every history of look-ups
-//      through actionlint.Projects.At is compared with the nearest enclosing
-//      root (oracle) and dumped for the Coq model (K);
-//  (B) isolation: repositories with local actions and reusable workflows;
-//      every file is linted alone on a fresh Linter and in subsets / orders /
-//      GOMAXPROCS settings through LintFiles; the per-file diagnostics must be
-//      the same (oracle = the property verbatim);
-//  (C) tables: deep fingerprints of the exported built-in tables and of the
-//      shared configuration before and after every run.
+//
+//	(A) attribution: directory trees with sibling repositories whose names share
+//	    a prefix and repositories nested in others; every history of look-ups
+//	    through actionlint.Projects.At is compared with the nearest enclosing
+//	    root (oracle) and dumped for the Coq model (K);
+//	(B) isolation: repositories with local actions and reusable workflows;
+//	    every file is linted alone on a fresh Linter and in subsets / orders /
+//	    GOMAXPROCS settings through LintFiles; the per-file diagnostics must be
+//	    the same (oracle = the property verbatim);
+//	(C) tables: deep fingerprints of the exported built-in tables and of the
+//	    shared configuration before and after every run.
+//
 // Built with -race by the check: a detected data race makes the process exit
 // with status 66.
 package main
@@ -128,12 +130,12 @@ func write(path, content string) {
 }
 
 type iface struct {
-	names   []string
-	req     []bool
-	def     []bool
-	typ     []string
-	nulldef []bool // `default:` written with a null value
-	noOutputs bool // reusable workflow without an `outputs:` section
+	names     []string
+	req       []bool
+	def       []bool
+	typ       []string
+	nulldef   []bool // `default:` written with a null value
+	noOutputs bool   // reusable workflow without an `outputs:` section
 }
 
 var namePool = []string{"alpha", "Beta", "gamma", "delta", "Epsilon", "zeta"}
@@ -280,6 +282,13 @@ func genRepo(r *hx.Rng, root string, k int) repo {
 	af, wfi := genIface(r), genIface(r)
 	write(filepath.Join(root, ".github", "actions", "act", "action.yml"), af.actionYAML("act"))
 	write(filepath.Join(root, ".github", "actions", "act", "index.js"), "")
+	// a second local action whose directory holds BOTH metadata file names with different
+	// interfaces (a stale file left by a rename): which one is read is decided by the directory
+	// alone, not by what was looked up before
+	af2, af3 := genIface(r), genIface(r)
+	write(filepath.Join(root, ".github", "actions", "act2", "action.yaml"), af2.actionYAML("act2"))
+	write(filepath.Join(root, ".github", "actions", "act2", "action.yml"), af3.actionYAML("act2-stale"))
+	write(filepath.Join(root, ".github", "actions", "act2", "index.js"), "")
 	callee := filepath.Join(root, ".github", "workflows", "callee.yaml")
 	write(callee, wfi.calleeYAML())
 	cfg := "config-variables:\n  - ZETA\n  - ALPHA\n  - MIDDLE\n"
@@ -293,7 +302,11 @@ func genRepo(r *hx.Rng, root string, k int) repo {
 	rp := repo{root: root, files: []string{callee}}
 	for i := 0; i < k; i++ {
 		p := filepath.Join(root, ".github", "workflows", fmt.Sprintf("caller%d.yaml", i))
-		write(p, callerYAML(r, "./.github/actions/act", af, "./.github/workflows/callee.yaml", wfi))
+		if i%2 == 1 {
+			write(p, callerYAML(r, "./.github/actions/act2", af2, "./.github/workflows/callee.yaml", wfi))
+		} else {
+			write(p, callerYAML(r, "./.github/actions/act", af, "./.github/workflows/callee.yaml", wfi))
+		}
 		rp.files = append(rp.files, p)
 	}
 	return rp
@@ -317,9 +330,13 @@ func perFile(errs []*actionlint.Error, base string) map[string]string {
 	return out
 }
 
-func newLinter() *actionlint.Linter {
+func newLinter() *actionlint.Linter { return newLinterWD("") }
+
+// newLinterWD: a linter whose working directory (LinterOptions.WorkingDir) is wd, which need not
+// be the working directory of the process ("" = the process's)
+func newLinterWD(wd string) *actionlint.Linter {
 	var out bytes.Buffer
-	l, err := actionlint.NewLinter(&out, &actionlint.LinterOptions{Color: actionlint.ColorOptionKindNever})
+	l, err := actionlint.NewLinter(&out, &actionlint.LinterOptions{Color: actionlint.ColorOptionKindNever, WorkingDir: wd})
 	hx.Must(err)
 	return l
 }
@@ -479,7 +496,7 @@ func main() {
 	// ---- (B) isolation
 	for g := 0; g < *nrepo; g++ {
 		base := filepath.Join(scratch, fmt.Sprintf("g%d", g))
-		ra := genRepo(r, filepath.Join(base, "proj"), 2)
+		ra := genRepo(r, filepath.Join(base, "proj"), 4)
 		rb := genRepo(r, filepath.Join(base, "proj2"), 1) // sibling sharing a name prefix
 		rc := genRepo(r, filepath.Join(base, "proj", "third_party", "nested"), 1)
 		files := append(append(append([]string{}, ra.files...), rb.files...), rc.files...)
@@ -501,20 +518,33 @@ func main() {
 		// subsets and orders
 		for k := 0; k < 40; k++ {
 			n := 2 + r.Intn(*maxfiles-1)
+			if k%5 == 4 {
+				n = 1 // "every subset": the run of one file
+			}
 			p := r.Perm(len(files))
 			var sub []string
 			for _, i := range p[:n] {
 				sub = append(sub, files[i])
 			}
 			runtime.GOMAXPROCS([]int{1, 4, 16}[k%3])
-			errs, err := newLinter().LintFiles(sub, nil)
+			// the linter's working directory: the process's, or a directory elsewhere (library use)
+			wd := []string{"", "", base, rb.root, filepath.Join(ra.root, ".github")}[r.Intn(5)]
+			pbase := wd
+			if pbase == "" {
+				pbase = cwd()
+			}
+			sum.Dist[fmt.Sprintf("subset_size_%d", n)]++
+			if wd != "" {
+				sum.Dist["subset_runs_with_foreign_working_dir"]++
+			}
+			errs, err := newLinterWD(wd).LintFiles(sub, nil)
 			sum.Evaluations++
 			sum.Dist["subset_runs"]++
 			if err != nil {
 				sum.OracleFails = append(sum.OracleFails, failure{What: "fatal error in a multi-file run", Key: "fatal-multi", Input: strings.Join(sub, " , "), Got: err.Error()})
 				continue
 			}
-			got := perFile(errs, cwd())
+			got := perFile(errs, pbase)
 			nt := false
 			for _, f := range sub {
 				if alone[f] != "" {
